@@ -236,6 +236,7 @@ void partitionCase(size_t idx) {
 	ao.shapes = 1;
 	ao.skinned = 1;
 	ao.extras = false;
+	ao.usedObject = idx % 4 == 2;
 	ao.bones = 1 + (int)rng.below(8);   // below every bone limit: rebuilding never has to split a partition
 	ao.nv = 4 + (int)rng.below(40);
 	ao.nt = 1 + (int)rng.below(60);
